@@ -207,6 +207,16 @@ func crossOracles(nodes []*replayNode, all []string) []violation {
 		}
 	}
 	add := func(sig, detail string) { out = append(out, violation{sig: sig, detail: detail, replay: all}) }
+	var allCases []*Case
+	for _, n := range nodes {
+		allCases = append(allCases, n.c)
+	}
+	if inconsistentReplay(allCases) {
+		// the file feeds an operator a message in the name of a correct operator that does not send it on this tree: the
+		// recorded schedule is not a schedule of this tree (the traces are still diffed against the model)
+		nodes[0].c.tags = append(nodes[0].c.tags, "replay/schedule-does-not-exist-on-this-tree")
+		return nil
+	}
 	if *mode == "sim" {
 		for i, a := range nodes {
 			if a.flipped {
